@@ -117,7 +117,7 @@ pub fn run(ctx: &Ctx, rep: &mut Report) {
                     vals.push(r.bits(width as u32));
                 }
             }
-            let reps = if ctx.thorough() { 16 } else { 2 };
+            let reps = if ctx.thorough() { 24 } else { 6 };
             for &v in &vals {
                 let important = value_class(f.key, width, v) != "other";
                 for _ in 0..(if important { reps * 4 } else { reps.min(if width <= 12 { reps } else { 1 }) }) {
